@@ -253,6 +253,21 @@ func (a *NilAnalysis) callResultNonNilNoErr(fn *ssa.Function, c *ssa.Call, idx i
 	return true
 }
 
+// callResultNonNilOk: result idx is non-nil whenever the last (bool) result is true.
+func (a *NilAnalysis) callResultNonNilOk(fn *ssa.Function, c *ssa.Call, idx int) bool {
+	in, ext := a.p.Callees(fn, c)
+	if ext || len(in) == 0 {
+		return false
+	}
+	for _, callee := range in {
+		s := a.sum[callee]
+		if s == nil || idx >= len(s.retNonNilOk) || !s.retNonNilOk[idx] {
+			return false
+		}
+	}
+	return true
+}
+
 // heldBy: the SSA value a local cell is known to hold ("H|loc|name" facts).
 func heldValue(f nilFacts, loc string, fn *ssa.Function) string {
 	pre := "H|" + loc + "|"
@@ -275,6 +290,12 @@ func (a *NilAnalysis) edgeFacts(fn *ssa.Function, pred *ssa.BasicBlock, succ int
 }
 
 func (a *NilAnalysis) condFacts(fn *ssa.Function, cond ssa.Value, taken bool, f nilFacts) {
+	// conditions nest (!, &&, || in value position); a phi that feeds itself through a loop must not be followed for ever
+	if a.condDepth > 24 {
+		return
+	}
+	a.condDepth++
+	defer func() { a.condDepth-- }()
 	switch c := cond.(type) {
 	case *ssa.UnOp:
 		if c.Op == token.NOT {
@@ -388,10 +409,27 @@ func (a *NilAnalysis) condFacts(fn *ssa.Function, cond ssa.Value, taken bool, f 
 		}
 	case *ssa.Extract:
 		// comma-ok forms
-		if c.Index != 1 || !taken {
+		if !taken {
+			return
+		}
+		if _, isCall := c.Tuple.(*ssa.Call); !isCall && c.Index != 1 {
 			return
 		}
 		switch t := c.Tuple.(type) {
+		case *ssa.Call:
+			// v, ok := f(…): the results the callee only leaves nil when it answers false
+			if c.Index != okResultIndex(t.Call.Signature()) {
+				return
+			}
+			for _, ref := range *t.Referrers() {
+				sib, ok := ref.(*ssa.Extract)
+				if !ok || sib.Index == c.Index || !isNilable(sib.Type()) {
+					continue
+				}
+				if a.callResultNonNilOk(fn, t, sib.Index) {
+					f["v:"+sib.Name()] = true
+				}
+			}
 		case *ssa.Lookup:
 			if !t.CommaOk {
 				return
@@ -459,7 +497,7 @@ func isLocKey(k string) bool {
 	if strings.HasPrefix(k, "H|") {
 		return true
 	}
-	if strings.HasPrefix(k, "a:") || strings.HasPrefix(k, "g:") || strings.HasPrefix(k, "fv:") {
+	if strings.HasPrefix(k, "a:") || strings.HasPrefix(k, "g:") || strings.HasPrefix(k, "fv:") || strings.HasPrefix(k, "dp:") {
 		return true
 	}
 	return strings.ContainsAny(k, ".[{")
@@ -470,6 +508,21 @@ func (a *NilAnalysis) transfer(fn *ssa.Function, ins ssa.Instruction, f nilFacts
 	switch x := ins.(type) {
 	case *ssa.Store:
 		L := a.loc(x.Addr)
+		// what a pointer parameter points to may be the very field, element or variable written here: equalities with
+		// *p die at any store of a value of that type
+		{
+			want := typeStr(x.Val.Type())
+			for k := range f {
+				if strings.HasPrefix(k, "E|") {
+					parts := strings.SplitN(k, "|", 3)
+					if strings.HasPrefix(parts[2], "dp:") {
+						if v := valueByName(fn, strings.TrimPrefix(parts[1], "v:")); v == nil || typeStr(v.Type()) == want {
+							delete(f, k)
+						}
+					}
+				}
+			}
+		}
 		// register/location equalities of the written location die whatever the stored type
 		switch ad := x.Addr.(type) {
 		case *ssa.FieldAddr:
